@@ -138,6 +138,8 @@ pub struct GenCfg {
     /// the main function is synchronous and nothing awaits (module bodies that must run to
     /// completion without the host)
     pub sync_main: bool,
+    /// debugging / probing: always use this native-matrix template
+    pub force_matrix: Option<usize>,
 }
 
 impl GenCfg {
@@ -168,6 +170,7 @@ impl GenCfg {
             f_global_effects: false,
             f_break: true,
             sync_main: false,
+            force_matrix: None,
         }
     }
 }
@@ -761,6 +764,44 @@ impl<'a> Gen<'a> {
         }
     }
 
+    /// Callback-taking and copying natives crossed with results that are fresh objects: every
+    /// template yields an array of `{ v: … }` objects whose elements were, at some point, held only
+    /// by the native that produced them.
+    fn native_matrix(&mut self, d: usize) -> String {
+        let a = self.oarr(d);
+        let n = self.sync_num(0);
+        let s = self.sync_str(0);
+        let p = self.uniq_prefix.clone();
+        let k = self.cfg.force_matrix.unwrap_or_else(|| self.rng.below(24));
+        self.tag("native-matrix");
+        match k {
+            0 => format!("{a}.reduceRight((p: any, c: any) => p.concat([{{ v: (Number(c.v) || 0) + p.length }}]), [])"),
+            1 => format!("[{a}.reduceRight((p: any, c: any) => ({{ v: (Number(p.v) || 0) + (Number(c.v) || 0), prev: [p.v] }}), {{ v: {n} }})]"),
+            2 => format!("[{a}.reduce((p: any, c: any) => ({{ v: (Number(p.v) || 0) + (Number(c.v) || 0), l: [c] }}), {{ v: {n} }})]"),
+            3 => format!("[{a}.findLast((o: any) => (Number(o.v) || 0) >= {n}) ?? {{ v: -1 }}]"),
+            4 => format!("{a}.toSorted((x: any, y: any) => (Number(x.v) || 0) - (Number(y.v) || 0))"),
+            5 => format!("{a}.toReversed().toSpliced(0, 1, {{ v: {n} }}).with(0, {{ v: 5 }})"),
+            6 => format!("[[{{ v: {n} }}], {a}].flat()"),
+            7 => format!("Array.from({a}, (o: any) => ({{ v: o.v, c: [o] }}))"),
+            8 => format!("Array.from(new Set({a}).values(), (o: any) => ({{ v: o.v }}))"),
+            9 => format!("Object.values(Object.fromEntries({a}.map((o: any, i: number) => [\"k\" + i, {{ v: o.v }}])))"),
+            10 => format!("JSON.parse(JSON.stringify({a}), (k: string, v: any) => (v && typeof v === \"object\" && !Array.isArray(v)) ? {{ ...v, r: 1 }} : v)"),
+            11 => format!("JSON.parse(JSON.stringify({a}, (k: string, v: any) => typeof v === \"number\" ? {{ n: v }} : v))"),
+            12 => format!("Array.from(new Map({a}.map((o: any, i: number) => [{{ key: i }}, {{ v: o.v }}])).entries()).map((e: any) => ({{ v: e[1].v, k: e[0].key }}))"),
+            13 => format!("[...new Set({a}.map((o: any) => ({{ v: o.v }})))]"),
+            14 => format!("Array.from({s}.matchAll(/[a-z]/g), (m: any) => ({{ v: m.index, s: m[0] }}))"),
+            15 => format!("[{{ v: {s}.replace(/[a-z]/g, (m: string) => JSON.stringify({{ m: m }})).length }}, {{ v: {s}.replaceAll(\"a\", (m: string) => String([{{ q: m }}].length)).length }}]"),
+            16 => format!("structuredClone({a})"),
+            17 => format!("Object.entries(Object.groupBy({a}, (o: any) => (Number(o.v) || 0) % 2 === 0 ? \"e\" : \"o\")).map((e: any) => ({{ v: e[1].length, k: e[0] }}))"),
+            18 => format!("(() => {{ const out: any[] = []; new Map({a}.map((o: any, i: number) => [i, o])).forEach((val: any, key: any) => {{ out.push({{ v: val.v, key: key }}); }}); return out; }})()"),
+            19 => format!("(() => {{ const out: any[] = []; new Set({a}).forEach((val: any) => {{ out.push({{ v: val.v }}); }}); return out; }})()"),
+            20 if self.cfg.f_gen => format!("(() => {{ const [x, y = {{ v: -1 }}, ...rest]: any = (function* (): any {{ for (const o of {a}) {{ yield {{ v: o.v }}; }} }})(); return [x ?? {{ v: -2 }}, y, ...rest]; }})()"),
+            21 if self.cfg.f_class && self.cfg.f_gen => format!("[...new {p}G({n}).walk()].map((x: any) => ({{ v: x }}))"),
+            22 if self.cfg.f_class && self.cfg.f_gen => format!("(() => {{ const it: any = {p}mkwalk({n}); const junk: any[] = [{{}}, {{}}, {{}}, [1, 2]]; const r: any[] = [it.next().value, junk.length, it.next().value, it.next().value]; return r.map((x: any) => ({{ v: x }})); }})()"),
+            _ => format!("{a}.map((o: any) => ({{ ...o }})).filter((o: any, i: number) => i % 2 === 0 || {a}.some((q: any) => q.v === o.v))"),
+        }
+    }
+
     /// Arrays of fresh objects: the elements are reachable only through the array (and, while a
     /// native runs, only through that native's own guards) — the shape a missing guard bites.
     fn oarr(&mut self, d: usize) -> String {
@@ -776,7 +817,11 @@ impl<'a> Gen<'a> {
         }
         let d = d - 1;
         loop {
-            match self.rng.below(16) {
+            if self.cfg.force_matrix.is_some() && self.rng.chance(0.7) {
+                return self.native_matrix(d);
+            }
+            match self.rng.below(22) {
+                16..=21 => return self.native_matrix(d),
                 0 => {
                     self.tag("omap");
                     return format!("{}.map((o: any) => ({{ v: (Number(o.v) || 0) + {}, w: [o] }}))", self.oarr(d), self.sync_num(0));
@@ -1539,6 +1584,23 @@ impl<'a> Gen<'a> {
                         ),
                     });
                 }
+                94 if deep && self.cfg.f_try => {
+                    // an object thrown by a callee travels through a finally-only handler of the
+                    // caller whose finally block allocates, and is inspected afterwards
+                    self.tag("throw-through-finally");
+                    let p = self.uniq_prefix.clone();
+                    let e = self.fresh("e");
+                    let arg = self.num(1);
+                    let nb = 1 + self.rng.below(2);
+                    let fin = self.block(nb, depth + 1);
+                    let callee = if self.rng.chance(0.5) { "thrower" } else { "viaCallee" };
+                    let mut kids = vec![Node::leaf(format!("try {{ {p}{callee}({arg}); }} finally {{"))];
+                    kids.extend(fin);
+                    kids.push(Node::leaf(format!(
+                        "}} }} catch ({e}: any) {{ __log.push(\"tf:\" + __show({e}.code) + \":\" + String({e}.message) + \":\" + String({e} instanceof RangeError));"
+                    )));
+                    return Node::block("try {", kids, "}");
+                }
                 92 if self.cfg.f_symbol => {
                     // symbols kept in variables: identity, use as keys, registry
                     self.tag("symbol-var");
@@ -1632,9 +1694,20 @@ impl<'a> Gen<'a> {
                     )));
                 }
             }
+            if self.cfg.f_gen {
+                self.tag("generator-method-class");
+                decls.push(Node::leaf(format!(
+                    "class {p}G {{ v: any[]; tag: any; constructor(n: any) {{ this.v = [n, (Number(n) || 0) + 1, (Number(n) || 0) + 2]; this.tag = {{ t: n }}; }} *walk(): any {{ let i = 0; while (i < this.v.length) {{ const item = this.v[i]; i++; yield (Number(item) || 0) + this.v.length + (Number(this.tag.t) || 0); }} }} }}\nconst {p}mkwalk = (n: any): any => new {p}G(n).walk();"
+                )));
+            }
             self.in_async = false;
             decls.push(Node::leaf(format!(
                 "class {p}K extends {p}B {{ #p: any = 1; constructor(v: any) {{ super(v); this.#p = v; }} get g(): any {{ return (Number(this.#p) || 0) + 1; }} m(x: any): any {{ return super.m(x) + {p}B.s(1); }}{extra} }}"
+            )));
+        }
+        if self.cfg.f_try {
+            decls.push(Node::leaf(format!(
+                "function {p}thrower(n: any): any {{ const err: any = new RangeError(\"r\" + n); err.code = {{ c: n, l: [n] }}; throw err; }}\nfunction {p}viaCallee(n: any): any {{ return {p}thrower(n); }}"
             )));
         }
         self.in_async = !self.cfg.sync_main;
